@@ -21,12 +21,9 @@ struct Case {
   bool valid() const {
     if (ops.size() > 200) return false;
     auto names_ok = [](const std::vector<long> &v, size_t from) {
-      std::set<long> s;
-      for (size_t i = from; i < v.size(); i++) {
+      for (size_t i = from; i < v.size(); i++)
         if (v[i] < 0 || v[i] >= NNAMES) return false;
-        if (!s.insert(v[i] % 100).second) return false;  // a setfile version never names the same file twice
-      }
-      return true;
+      return v.size() - from <= 12;  // a version may name the same file more than once (same or different spelling)
     };
     if (!names_ok(initial, 0)) return false;
     for (auto &o : ops) {
@@ -70,6 +67,21 @@ struct Case {
   }
 };
 
+// Value comparison.  Every file contributes each of its values to the fold exactly once; a file that the setfile names
+// m times may contribute once (an implementation that treats the names as a set) up to m times (one reader per line):
+// the statement does not say which, so both are accepted.  Without repeated names this is exact multiset equality.
+static bool tokens_within(const bytes &got, const bytes &want) {
+  if (got.size() % 4 || want.size() % 4) return false;
+  std::map<bytes, int> g, w;
+  for (auto &t : tokens_of(got)) g[t]++;
+  for (auto &t : tokens_of(want)) w[t]++;
+  if (g.size() != w.size()) return false;
+  for (auto &kv : g) {
+    auto it = w.find(kv.first);
+    if (it == w.end() || kv.second > it->second) return false;
+  }
+  return true;
+}
 static KVs table_content(int i) {
   static const char *keys[NTABLES][5] = {{"a", "b", "c", "d", nullptr}, {"c", "d", "e", "f", nullptr}, {"a", "f", "g", nullptr, nullptr},
                                          {nullptr, nullptr, nullptr, nullptr, nullptr}, {"", "b", "z", nullptr, nullptr}, {"m", "n", nullptr, nullptr, nullptr}};
@@ -105,6 +117,11 @@ static std::vector<long> gen_names() {
   for (int i = 0; i < n; i++) {
     long x = weighted({80, 10, 10}) == 0 ? pick(0, NTABLES - 1) : chance(50) ? 6 : 7;
     if (s.insert(x).second) v.push_back(x);
+  }
+  if (!v.empty() && chance(12)) {
+    // the same file named again further down (depending on its position the line is spelled the same or differently)
+    int extra = pick(1, 2);
+    for (int i = 0; i < extra; i++) v.insert(v.begin() + pick(0, (int)v.size()), v[(size_t)pick(0, (int)v.size() - 1)]);
   }
   return v;
 }
@@ -205,6 +222,8 @@ static Result run_case(const Case &c) {
       struct timespec ts[2] = {{mtime, 0}, {mtime, 0}};
       utimensat(AT_FDCWD, setfile.c_str(), ts, 0);
       versions.push_back(names);
+      std::set<long> distinct(names.begin(), names.end());
+      if (distinct.size() < names.size()) r.tag("setfile_names_a_file_twice");
     };
     write_version(c.initial, 0);
     vc_now.tv_sec = 1000;
@@ -381,7 +400,7 @@ static Result run_case(const Case &c) {
             RefTable t = content(cd, hs[(size_t)h]);
             KVs want = model_result(t, sp);
             bool same = got.size() == want.size();
-            for (size_t i = 0; same && i < got.size(); i++) same = got[i].first == want[i].first && token_multiset_eq(got[i].second, want[i].second);
+            for (size_t i = 0; same && i < got.size(); i++) same = got[i].first == want[i].first && tokens_within(got[i].second, want[i].second);
             if (same) ok.insert(cd);
             else if (why.empty()) why = diff_kvs(got, want);
           }
@@ -414,7 +433,7 @@ static Result run_case(const Case &c) {
             bool end = o.failed || o.returned >= want.size();
             if (res != mtbl_res_success) {
               if (end) ok.insert(cd);
-            } else if (!end && want[o.returned].first == bytes((const char *)kk, lk) && token_multiset_eq(want[o.returned].second, bytes((const char *)vv, lv)))
+            } else if (!end && want[o.returned].first == bytes((const char *)kk, lk) && tokens_within(bytes((const char *)vv, lv), want[o.returned].second))
               ok.insert(cd);
           }
           if (ok.empty()) {
